@@ -71,11 +71,14 @@ func NewReloadableOrchestrator(downstream base.Orchestrator, initiateReload Init
 
 // NewSink creates a new reloadable sink for an input source (e.g. incoming TCP connection)
 func (orc *ReloadableOrchestrator) NewSink(clientAddress string, clientNumber base.ClientNumber) base.BufferReceiverSink {
-	newDownstream := orc.downstream.NewSink(clientAddress, clientNumber)
 	vhook.G("rl.newsink.created")
 
 	lockT := orc.downstreamMutex.RLock() // only read-lock since we assume clientNumber is unique and nobody else is accessing it
 	defer orc.downstreamMutex.RUnlock(lockT)
+
+	// the downstream sink must be created within the lock, or a reload in between would leave it bound to the old
+	// downstream orchestrator, which is already shut down
+	newDownstream := orc.downstream.NewSink(clientAddress, clientNumber)
 
 	if orc.downstreamSinks[clientNumber] != nil {
 		orc.logger.WithFields(logger.Fields{
